@@ -1,0 +1,38 @@
+//go:build verif
+
+package rtplpcm
+
+// Contracts checked by /verif/govc (see /verif/DESIGN.md). Comment-only file.
+
+//@ func (e *Encoder) packetCount
+//@   requires e.maxPayloadSize >= 1 && slen >= 0
+//@   ensures ret >= 0 && (ret-1)*e.maxPayloadSize < slen && slen <= ret*e.maxPayloadSize
+//@   modifies nothing
+
+// maxPayloadSize is the payload limit rounded down to a whole number of samples (Init).
+//@ func (e *Encoder) Encode
+//@   opt frame-tag=C06
+//@   requires e.SSRC != nil && e.maxPayloadSize >= 1 && e.maxPayloadSize <= e.PayloadMaxSize && e.sampleSize >= 1 && len(samples) >= 1
+//@   ensures[C06] err == nil && len(ret) >= 1
+//@   ensures[C06] forall j :: 0 <= j && j < len(ret) ==> ret[j] != nil && len(ret[j].Payload) <= e.PayloadMaxSize && len(ret[j].Payload) >= 1
+//@   ensures[C06] forall j :: 0 <= j && j < len(ret) ==> ret[j].SequenceNumber == old(e.sequenceNumber) + uint16(j)
+//@   ensures[C06] e.sequenceNumber == old(e.sequenceNumber) + uint16(len(ret))
+//@   ensures[C06] forall j :: 0 <= j && j < len(ret) ==> ret[j].PayloadType == e.PayloadType && ret[j].SSRC == *e.SSRC && !ret[j].Marker
+//@   ensures[C03] forall j :: 0 <= j && j < len(ret) ==> ref(ret[j].Payload) == ref(samples) && off(ret[j].Payload) == off(samples) + j*e.maxPayloadSize
+//@   ensures[C03] forall j :: 0 <= j && j < len(ret)-1 ==> len(ret[j].Payload) == e.maxPayloadSize
+//@   ensures[C03] (len(ret)-1)*e.maxPayloadSize + len(ret[len(ret)-1].Payload) == len(samples)
+//@   modifies e.sequenceNumber, fresh
+//@   loop 1
+//@     invariant 0 <= i && i <= packetCount && len(ret) == packetCount && packetCount >= 1 && fresh(ret) && slen == len(samples)
+//@     invariant (packetCount-1)*e.maxPayloadSize < slen && slen <= packetCount*e.maxPayloadSize
+//@     invariant e.SSRC == old(e.SSRC) && e.maxPayloadSize == old(e.maxPayloadSize) && e.PayloadMaxSize == old(e.PayloadMaxSize) && e.PayloadType == old(e.PayloadType) && *e.SSRC == old(*e.SSRC) && e.sampleSize == old(e.sampleSize)
+//@     invariant i < packetCount ==> pos == i*e.maxPayloadSize && payloadSize == e.maxPayloadSize
+//@     invariant i == packetCount ==> pos == slen
+//@     invariant e.sequenceNumber == old(e.sequenceNumber) + uint16(i)
+//@     invariant forall j :: 0 <= j && j < i ==> ret[j] != nil && fresh(ret[j]) && len(ret[j].Payload) <= e.maxPayloadSize && len(ret[j].Payload) >= 1
+//@     invariant forall j :: 0 <= j && j < i ==> ret[j].SequenceNumber == old(e.sequenceNumber) + uint16(j)
+//@     invariant forall j :: 0 <= j && j < i ==> ret[j].PayloadType == e.PayloadType && ret[j].SSRC == *e.SSRC && !ret[j].Marker
+//@     invariant forall j :: 0 <= j && j < i ==> ref(ret[j].Payload) == ref(samples) && off(ret[j].Payload) == off(samples) + j*e.maxPayloadSize
+//@     invariant forall j :: 0 <= j && j < i && j < packetCount-1 ==> len(ret[j].Payload) == e.maxPayloadSize
+//@     invariant i == packetCount ==> (packetCount-1)*e.maxPayloadSize + len(ret[packetCount-1].Payload) == slen
+//@     decreases packetCount - i
